@@ -123,6 +123,8 @@ struct Wire<'a> {
     dead: BTreeSet<u32>,
     guards: BTreeMap<u32, RuleGuard>,
     udp: Vec<[Option<UdpSocket>; 2]>,
+    /// per host: a socket bound to 127.0.0.1
+    udp_lo: Vec<Option<UdpSocket>>,
     lst: Vec<[Option<TcpListener>; 2]>,
     conns: BTreeMap<u32, Conn>,
     orphans: Vec<(usize, TcpStream)>,
@@ -218,6 +220,13 @@ impl<'a> Wire<'a> {
                     panic!("the owner of the rule guard panics");
                 });
                 self.rep.faults.inc("guard_dropped_by_an_unwinding_panic");
+            } else if id % 4 == 1 {
+                // a second guard for the same rule (guard plus a clean-up list): the rule goes with the first drop,
+                // the second one is a no-op that touches no other rule
+                let again = RuleGuard::new(g.id());
+                drop(g);
+                drop(again);
+                self.rep.probes.inc("rule_released_twice");
             } else {
                 drop(g);
             }
@@ -404,6 +413,24 @@ impl<'a> Wire<'a> {
     fn event(&mut self, e: &Ev) {
         match e {
             Ev::Install { .. } | Ev::Uninstall { .. } => self.rule_op(e),
+            Ev::Udp { from, to, sel } if *to != UNOWNED && *to != *from && *sel == 200 => {
+                // from the socket bound to 127.0.0.1 to another host: whatever becomes of the datagram afterwards, it
+                // leaves its host and must be decided by the rules like any other packet
+                let Some(ip) = self.d.addrs[*to].iter().copied().find(|a| a.is_ipv4()) else { return };
+                if !self.d.addrs[*from].iter().any(|a| a.is_ipv4()) {
+                    return;
+                }
+                let Some(u) = &self.udp_lo[*from] else { return };
+                self.tag += 1;
+                let t = self.tag;
+                let r = self.d.on(*from, || u.try_send_to(&tag_bytes(t), SocketAddr::new(ip, UDP_PORT)));
+                if matches!(r, Ok(8)) {
+                    self.expect_wire.insert(t);
+                    self.log.ev(format!("udp tag {t} h{from} (bound to 127.0.0.1) -> {ip}"));
+                    self.log.tag("udp-from-lo");
+                    self.rep.probes.inc("datagrams_from_a_loopback_bound_socket_to_another_host");
+                }
+            }
             Ev::Udp { from, to, sel } => {
                 let Some(ip) = self.dst_ip(*from, *to, *sel) else { return };
                 if !self.can_send(*from, ip) {
@@ -497,6 +524,8 @@ fn exec_wire(w: &mut Wire<'_>) {
         let l4 = w.d.once(h, TcpListener::bind(("0.0.0.0".parse::<IpAddr>().unwrap(), TCP_PORT))).and_then(|r| r.ok());
         let l6 = w.d.once(h, TcpListener::bind(("::".parse::<IpAddr>().unwrap(), TCP_PORT))).and_then(|r| r.ok());
         w.udp.push([u4, u6]);
+        let ulo = w.d.once(h, UdpSocket::bind(("127.0.0.1".parse::<IpAddr>().unwrap(), UDP_PORT + 1))).and_then(|r| r.ok());
+        w.udp_lo.push(ulo);
         w.lst.push([l4, l6]);
     }
     let sc = w.sc;
@@ -557,6 +586,7 @@ fn run_wire(sc: &WireSc, keep: bool) -> Report {
         dead: BTreeSet::new(),
         guards: BTreeMap::new(),
         udp: Vec::new(),
+        udp_lo: Vec::new(),
         lst: Vec::new(),
         conns: BTreeMap::new(),
         orphans: Vec::new(),
@@ -575,7 +605,7 @@ fn run_wire(sc: &WireSc, keep: bool) -> Report {
         w.rep.probes.inc("rule_installed_before_enter");
     }
     let r = core::catch(|| exec_wire(&mut w));
-    let Wire { d, log, mut rep, mut v, guards, udp, lst, conns, orphans, nontrivial, .. } = w;
+    let Wire { d, log, mut rep, mut v, guards, udp, udp_lo, lst, conns, orphans, nontrivial, .. } = w;
     match r {
         Ok(()) => {
             for (_, c) in conns {
@@ -594,13 +624,16 @@ fn run_wire(sc: &WireSc, keep: bool) -> Report {
             for (h, s) in udp.into_iter().enumerate() {
                 d.on(h, || drop(s));
             }
+            for (h, s) in udp_lo.into_iter().enumerate() {
+                d.on(h, || drop(s));
+            }
             for (h, s) in lst.into_iter().enumerate() {
                 d.on(h, || drop(s));
             }
             drop(guards);
         }
         Err(msg) => {
-            std::mem::forget((conns, orphans, udp, lst, guards));
+            std::mem::forget((conns, orphans, udp, udp_lo, lst, guards));
             if v.is_none() {
                 v = Some(Violation::new("Panic", format!("turmoil-net panicked: {msg}")));
             }
@@ -681,7 +714,7 @@ fn gen_wire(rng: &mut Rng) -> WireSc {
             1 => {
                 let from = rng.below(nh as u64) as usize;
                 let to = if rng.chance(1, 4) { from } else if rng.chance(1, 10) { UNOWNED } else { rng.below(nh as u64) as usize };
-                let sel = if to == UNOWNED { rng.below(2) as u8 } else { rng.below(hosts[to].len() as u64 + if to == from { 4 } else { 0 }) as u8 };
+                let sel = if to == UNOWNED { rng.below(2) as u8 } else if to != from && rng.chance(1, 10) { 200 } else { rng.below(hosts[to].len() as u64 + if to == from { 4 } else { 0 }) as u8 };
                 for _ in 0..rng.range(1, 3) {
                     evs.push(Ev::Udp { from, to, sel });
                 }
